@@ -6,13 +6,15 @@ import hv
 from hv import Case
 
 SPEC = {
-    "lean_modules": ["Honeycomb.Props.C01", "Honeycomb.Props.C01b", "Honeycomb.Props.C01Gen"],
+    "lean_modules": ["Honeycomb.Props.C01", "Honeycomb.Props.C01b", "Honeycomb.Props.C01Gen", "Honeycomb.Props.C01Gen2"],
     # Gen/LinkCores.lean is re-translated from components/betas.rs before every build
-    "gen": ["cores"],
+    "gen": ["cores", "sews2"],
     "required_theorems": [
+        # Props/C01Gen2.lean: the translated CMap2::one_sew / one_unsew ARE the model's oneSew2 / oneUnsew2
+        "C01_gen_oneSew2", "C01_gen_oneUnsew2",
         # Props/C01Gen.lean: the translated *_core functions of betas.rs ARE the model's link cores (program equality)
         "C01_gen_oneLinkCore", "C01_gen_twoLinkCore", "C01_gen_threeLinkCore", "C01_gen_oneUnlinkCore", "C01_gen_twoUnlinkCore",
-        "C01_gen_threeUnlinkCore","C01_history_preserves_WF", "C01_step_preserves_WF", "C01_failed_call_changes_nothing", "C01_unused_is_nobodys_image",
+        "C01_gen_threeUnlinkCore", "C01_gen_cores_preserve_WF","C01_history_preserves_WF", "C01_step_preserves_WF", "C01_failed_call_changes_nothing", "C01_unused_is_nobodys_image",
                           "C01_any_outcome_preserves_WF", "C01_swallowed_abort_preserves_WF"],
     "trusted_base": [
         "Lean 4.33 kernel; axioms propext, Classical.choice, Quot.sound only",
